@@ -120,6 +120,9 @@ let handle (x : sx) : unit =
                                                     tv_to = z_of to_; tv_req = req; tv_sql = [] }))
   | L [A "tvi"; id; db; dist; tags; from; to_; mn; mx; lim; v2] ->
     print_stmt (int_of id) (tv1_pieces (TvIndex (str_of db, bool_of dist, list_of tag_of tags, z_of from, z_of to_, z_of mn, z_of mx, z_of lim, bool_of v2)))
+  (* round 4: label values / series (model/ScansPlanners.v): (lv <id> <ctx> <key or -> (<selector> ...)), <selector> = (<matcher> ...) *)
+  | L [A "lv"; id; c; key; sels] ->
+    print_stmt (int_of id) (lv_pieces (ctx_of c) (match key with A "-" -> None | k -> Some (str_of k)) (list_of (list_of matcher_of) sels))
   | _ -> failwith "bad case line"
 
 let () =
